@@ -225,6 +225,28 @@ def install(I):
     chain_cls.ns["__pyvc_new__"] = lambda i, cls, a, k: _chain(i, a, k)
     chain_cls.ns["from_iterable"] = StaticMethodV(Builtin("chain.from_iterable", _chain_from_iterable))
     E["itertools.chain"] = chain_cls
+
+    def _islice(i, a, k):
+        it = i.iterate(a[0])
+        if len(a) == 2:
+            start, stop, step = 0, a[1], 1
+        else:
+            start, stop, step = a[1] or 0, a[2], (a[3] if len(a) > 3 and a[3] is not None else 1)
+        if not all(x is None or type(x) is int for x in (start, stop, step)):
+            raise Unsupported("itertools.islice with symbolic bounds")
+
+        def gen():
+            n = 0
+            while stop is None or n < stop:
+                try:
+                    x = next(it)
+                except StopIteration:
+                    return
+                if n >= start and (n - start) % step == 0:
+                    yield x
+                n += 1
+        return IterV(gen())
+    E["itertools.islice"] = Builtin("itertools.islice", _islice)
     Bidict = mkcls("bidict")
 
     def _bidict_new(i, cls, a, k):
@@ -237,6 +259,15 @@ def install(I):
     Bidict.ns["__getitem__"] = Builtin("bidict.__getitem__", lambda i, a, k: i.getitem(a[0].fields["d"], a[1]), "bidict: bijection of the literal given in the source")
     Bidict.ns["__contains__"] = Builtin("bidict.__contains__", lambda i, a, k: i.wrap_bool(i.contains(a[0].fields["d"], a[1])))
     Bidict.ns["__iter__"] = Builtin("bidict.__iter__", lambda i, a, k: IterV(i.iterate(a[0].fields["d"])))
+    def _bidict_get(i, a, k):
+        d = a[0].fields["d"]
+        j = i.dict_find(d, a[1])
+        return d.vals[j] if j >= 0 else (a[2] if len(a) > 2 else k.get("default"))
+    Bidict.ns["get"] = Builtin("bidict.get", _bidict_get)
+    Bidict.ns["keys"] = Builtin("bidict.keys", lambda i, a, k: ListV(list(a[0].fields["d"].keys)))
+    Bidict.ns["values"] = Builtin("bidict.values", lambda i, a, k: ListV(list(a[0].fields["d"].vals)))
+    Bidict.ns["items"] = Builtin("bidict.items", lambda i, a, k: ListV(list(zip(a[0].fields["d"].keys, a[0].fields["d"].vals))))
+    Bidict.ns["__len__"] = Builtin("bidict.__len__", lambda i, a, k: len(a[0].fields["d"].keys))
     E["bidict.bidict"] = Bidict
     E["atexit.register"] = Builtin("atexit.register", lambda i, a, k: i.st.event("atexit", a[0]))
     def _shallow_copy(i, a, k):
